@@ -404,6 +404,10 @@ func runC06(c *core.Ctx) {
 	checkRebuildKeepsEveryEntry(c, "R6.7")
 	c.Rule("R6.13", "the pool reader decodes a hit as the backend frames it: Flags from the first extras word, Exptime from the second, the second read exactly for gete/geteq replies", 1)
 	checkReaderDecodesHits(c, "R6.13")
+	c.Rule("R6.15", "the pool reader skips a reply it does not decode as a whole: what it discards is the TotalBodyLength of the header just read", 2)
+	checkReaderSkipsWholeBodies(c, "R6.15")
+	c.Rule("R6.16", "a relay is visible to other client connections only once it has a connection: the registry lock is released, after the registration, only behind the wait for the goroutine that adds the first connection", 1)
+	checkRelayPublishedReady(c, "R6.16")
 	c.Rule("R6.12", "a value the pool hands to a caller lives in memory of its own: allocated for that reply, never a view into the connection's read buffer (Peek / ReadSlice) and never a buffer reused for the next reply", 4)
 	checkFreshValueBuffers(c, "R6.12", relBatched)
 	c.Rule("R6.11", "every single-reply method of the batching handler returns the error (and response) the pool's request function gave it", 8)
@@ -416,6 +420,7 @@ func runC06(c *core.Ctx) {
 	} else {
 		c.Undecided("R6.9", "reader#bookkeeping-at-hand-over", "-", "reader not found")
 	}
+	c.Share(map[string]string{"R13.16": "R6.14"}, runC13) // leftover requests in a reused batch buffer are executed again and answered under opaques nobody waits for
 	c.Share(map[string]string{"R14.3": "R6.8"}, runC14) // a batch buffer used after it went back to the pool is overwritten by another connection's batch: callers' commands reach the backend as someone else's
 	c.Rule("R6.5", "state that suppresses hand-back in the retrying multi-key functions (the 'this attempt failed' flag) is reset for every attempt: it is never carried from one retry into the next", 2)
 	for _, fn := range submitters(c) {
